@@ -419,14 +419,14 @@ def strategy():
 def run(ctx):
     maxlen = ctx.pick(3, 5)
     cases = list(sweep_cases(maxlen))
-    ctx.sweep(cases, check_case)
+    ctx.sweep(cases, check_case, timeout=4 * 3600)
     ctx.extra["sweep_cases"] = len(cases)
     ctx.exhaustive = True
     ctx.bound = (
         f"all sequences of <= {maxlen} operations over {{bundle primary[a,b], bundle s2[b,c], bundle decl[a,c], configure a, "
         "configure b, configure s1, set s1}} after open_run, declare_stream(decl), monitor(s1)"
     )
-    ctx.hyp(strategy, check_case, max_examples=ctx.pick(3000, 40000), tag="c16")
+    ctx.hyp(strategy, check_case, max_examples=ctx.pick(3000, 40000), timeout=4 * 3600, tag="c16")
 
 
 def replay(case):
